@@ -537,11 +537,17 @@ func expandRequestData(testCase *conformancev1.TestCase) error {
 				padding := make([]byte, delta)
 				bytesVal = append(bytesVal, padding...)
 			} else {
-				if int64(len(bytesVal)) < -delta {
+				switch {
+				case len(bytesVal) == 0:
 					return fmt.Errorf("request message #%d: can't shrink to %d bytes; it is %d bytes without any padding",
-						i+1, totalSize, int64(size)-int64(len(bytesVal)))
+						i+1, totalSize, size)
+				case int64(len(bytesVal)) < -delta:
+					// Removing all the padding also removes the field's tag and
+					// length, so this may still get us there.
+					bytesVal = bytesVal[:0]
+				default:
+					bytesVal = bytesVal[:len(bytesVal)+int(delta)]
 				}
-				bytesVal = bytesVal[:len(bytesVal)+int(delta)]
 			}
 			reflectReq.Set(field, protoreflect.ValueOfBytes(bytesVal))
 			adjustCount++
